@@ -120,7 +120,8 @@ def run(chk):
                 '(c) seeded random field lists with widths 1..64 and arbitrary values (boundary-biased) are packed by the real code and each record is validated by spec/Trace_Pack.tla, which works on bit strings only (no 32-bit limit). (d) with the pack hook on, every distinct instruction encoding of the repository programs (real ISAs: 8085-like, SAP-1, KENBAK-1, Minimal 64/64x4/CPU with all their operand types) is validated the same way. Non-trivial = distinct field list / layout with at least two fields.')
     chk.assumptions = ['little-endian for a width that is not a multiple of 8: bytes least-significant first, the last byte contributing its low (w mod 8) bits',
                        'within the prefix group the first operand code is nearest to the opcode (order of the pinned commit)',
-                       'each abstract operand is realised in rotation by register, enumeration, numeric_enumeration, numeric_bytecode, numeric, indirect_numeric, deferred_numeric, address, indirect_register with offset, indexed registers with composite codes; rel/relend/slice operands by relative_address (plain and curly-brace form, from start / from last byte) and sliced address, the statement placed at two own addresses (5000, 9041) with the targets Encode.tla computes (AddressRelativeRoundTrip), written as numbers or as constants']
+                       'each abstract operand is realised in rotation by register, enumeration, numeric_enumeration, numeric_bytecode, numeric, indirect_numeric, deferred_numeric, address, indirect_register with offset, indexed registers with composite codes; rel/relend/slice operands by relative_address (plain and curly-brace form, from start / from last byte) and sliced address, the statement placed at two own addresses (5000, 9041) with the targets Encode.tla computes (AddressRelativeRoundTrip), written as numbers or as constants',
+                       'a third of the layouts is hosted by a VARIANT of the instruction whose primary form (one operand more) has another opcode, an opcode suffix and the other byte order: the bytes are a function of the selected variant\'s own layout only (Encode!Bytes takes nothing else)']
     # (a)
     for widths, mf in ([('{1, 4, 8, 12}', 2), ('{3, 5, 8, 9, 16}', 2)] if quick else [('{1, 3, 4, 8, 12}', 3), ('{5, 9, 16}', 3)]):
         res = tlc.run_tlc('Pack', 'SPECIFICATION Spec\nCONSTANTS\n  Widths = %s\n  MaxFields = %d\n' % (widths, mf)
